@@ -345,5 +345,8 @@ def run(ck):
     finally:
         ck.verdict, ck.violation, ck.floor = orig_v, orig_viol, orig_floor
     from .common import reevaluate
-    reevaluate(ck, 'C05.e', 'c04', lambda r, k: r == 'C04.a' and k.startswith('flags:'),
-               'the always-fail constraint is lifted only while REG_TF_DURING_INIT is set: nothing but register_init sets that flag, and register_init clears it on every exit')
+    ck.rule('C05.g', 'every checked operation reaches a register as register_init linked it (area, offset): the register lies wholly inside that area and the stored offset is address - base at full width - otherwise an accepted write lands on ANOTHER register, whose constraint nobody tested (C04.d / C04.e / C04.g re-evaluated)')
+    reevaluate(ck, lambda r, k: 'C05.e' if r == 'C04.a' else 'C05.g', 'c04',
+               lambda r, k: (r == 'C04.a' and k.startswith('flags:')) or r in ('C04.d', 'C04.g', 'C04.e'),
+               {'C05.e': 'the always-fail constraint is lifted only while REG_TF_DURING_INIT is set: nothing but register_init sets that flag, and register_init clears it on every exit',
+                'C05.g': 'set, bit operations, sanitise and the overlay of a block write use entry->area / entry->offset: init admits a register only wholly inside one area and links it there'})
